@@ -105,7 +105,7 @@ func Run(c *core.Ctx, pool *gjs.Pool) {
 			sw = without(sw, part)
 		}
 		exp = append(exp, &modelExpect{violated: "Reproducible", run: ModelRun{Name: "mutant_" + m, Family: "pass", Bnd: PassBounds(1, "m", "a"),
-			Sorted: true, Sw: sw, Nd: allNd, Invs: []string{"Reproducible"}, Workers: 2, Timeout: long}})
+			Sorted: true, Sw: sw, Nd: allNd, Invs: []string{"BEmit", "Reproducible"}, Workers: 2, Timeout: long}})
 	}
 	// the unsorted range of Collector.Finish on the shape of defect F6 (three packages are needed)
 	exp = append(exp, &modelExpect{violated: "Reproducible", run: ModelRun{Name: "mutant_sortedFinish", Family: "gen", Bnd: ScriptBounds(), Given: []Program{c04.F6Witness()},
@@ -167,6 +167,21 @@ func Run(c *core.Ctx, pool *gjs.Pool) {
 	scen = append(scen, witF6...)
 	scen = append(scen, witDang...)
 	scen = append(scen, witShift...)
+	// sentinels: the shapes on which the model needs one of the sorts of the code (the first state
+	// that violates Reproducible once the sort is removed).  The pinned tree must be reproducible on
+	// them; a change that loses the sort shows on exactly these shapes.
+	nSent := 0
+	for _, e := range exp {
+		if !strings.HasPrefix(e.run.Name, "mutant_sort") || e.violated == "" || e.run.Name == "mutant_sortedFinish" {
+			continue
+		}
+		for _, s := range SelectWitnesses(e.out.Wits, 1, "witness:sentinel:"+strings.TrimPrefix(e.run.Name, "mutant_"), nil) {
+			s.Early = nil // (the sentinels concern the sorts, not the session)
+			scen = append(scen, s)
+			nSent++
+		}
+	}
+	c.Set("sentinel_scenarios", nSent)
 
 	// ------------------------------------------------------------------
 	// 2. seeded skeletons: TLC builds the programs from VERIF_SEED digit strings
@@ -414,6 +429,9 @@ func (ck *checker) plan(s *Scenario, r Rendered, replaying bool) map[string][]st
 	nPlain := c.Pick(3, 5)
 	if witness {
 		nPlain = c.Pick(8, 20)
+	}
+	if strings.HasPrefix(s.Origin, "witness:sentinel") {
+		nPlain = c.Pick(4, 8)
 	}
 	if replaying {
 		nPlain = 40
@@ -893,7 +911,9 @@ func (ck *checker) finish() {
 	c.Set("groups_compared", ck.groups)
 	c.Set("traces_validated_against_impl", ck.ordersOK)
 	c.Set("model_drift_orders", ck.ordersDrift)
-	c.Set("model_drift_session", ck.sessDrift)
+	// the model over-approximates what an earlier command changes (it counts every instance the stale
+	// archive translated; an instance that allocates no anonymous type and shifts no id changes nothing)
+	c.Set("session_change_predicted_but_not_observed", ck.sessDrift)
 	c.Set("groups_whose_real_instance_order_varied", ck.realVaries)
 	c.Set("compiler_rejected_scenarios", ck.buildFailures)
 	if c.Get("spec_guard_discards") == 0 {
@@ -909,8 +929,8 @@ func (ck *checker) finish() {
 		"measured_divergence_rate":        float64(int(rate*1000)) / 1000,
 		"note": "a group of n builds of an order-sensitive program misses the divergence with probability about (1-p)^n + p^n, p = per-build rate of a non-majority order; all order-sensitive groups of a run must miss for the finding to go unnoticed",
 	})
-	if ck.ordersDrift+ck.sessDrift > 0 {
-		fmt.Printf("MODEL-DRIFT: %d groups whose real instance order is none of the model's final orders, %d scenarios whose session prediction did not show; e.g. %v\n", ck.ordersDrift, ck.sessDrift, ck.driftSamples)
+	if ck.ordersDrift > 0 {
+		fmt.Printf("MODEL-DRIFT: %d groups whose real instance order is none of the model's final orders; e.g. %v\n", ck.ordersDrift, ck.driftSamples)
 	} else if len(ck.driftSamples) > 0 {
 		fmt.Printf("note: %v\n", ck.driftSamples)
 	}
